@@ -556,8 +556,82 @@ def run(repo, res, tier):
                 if eng.summary(cache, k) == "DIRTY":
                     res.note("out of scope (not a mutator the property names): %s.%s leaves %s stale" % (u.name, mn, cache.name))
 
+    _current(repo, res, caches, scope)
     _history(repo, res)
     return {"caches": [{"cache": c.name, "kind": c.kind, "deps": sorted(c.deps), "why": c.why} for c in caches], "unresolved_calls": eng.eff.unresolved[:50]}
+
+
+def _current(repo, res, caches, scope):
+    """CACHE-CURRENT: where a mutator refreshes a cache by assigning it anew, the new value is computed from what the
+    dependencies hold *then*: no value read from a dependency before the mutator wrote that dependency (kept in a
+    local) may flow into the assignment.  Reads are followed through the reaching definitions of locals; positions are
+    compared in statement order of the body (pre-order), not by line."""
+    from ..dataflow import ReachingDefs
+
+    res.rule("CACHE-CURRENT", "a cache re-assigned by a mutator is computed from the dependencies as they are after the mutation", 3)
+    for cache in caches:
+        if cache.kind not in ("eager", "mirror"):
+            continue
+        users = repo.subclasses(cache.cls)
+        for cls, fk in scope:
+            if cls not in users:
+                continue
+            fn = fk.fn
+            me = fn.args.args[0].arg if fn.args.args else "self"
+            order = {}
+            stmts = []
+
+            def rec(body):
+                for st in body:
+                    order[id(st)] = len(stmts)
+                    stmts.append(st)
+                    for fld in ("body", "orelse", "finalbody", "handlers"):
+                        sub = getattr(st, fld, None)
+                        if isinstance(sub, list):
+                            rec([x for x in sub if isinstance(x, ast.stmt)] + [y for x in sub if isinstance(x, ast.ExceptHandler) for y in x.body])
+
+            rec(fn.body)
+            refreshes = [st for st in stmts if isinstance(st, (ast.Assign, ast.AnnAssign)) and any(isinstance(t, ast.Attribute) and isinstance(t.value, ast.Name) and t.value.id == me and t.attr == cache.slot for t in (st.targets if isinstance(st, ast.Assign) else [st.target])) and getattr(st, "value", None) is not None]
+            if not refreshes:
+                continue
+            rd = ReachingDefs(fn)
+            dep_names = set(cache.deps) | {d.lstrip("_") for d in cache.deps}
+            writes = {}
+            for st in stmts:
+                tg = st.targets if isinstance(st, ast.Assign) else [st.target] if isinstance(st, (ast.AnnAssign, ast.AugAssign)) else []
+                for t in tg:
+                    for x in ast.walk(t):
+                        if isinstance(x, ast.Attribute) and isinstance(x.ctx, ast.Store) and isinstance(x.value, ast.Name) and x.value.id == me and x.attr in dep_names:
+                            writes.setdefault(x.attr.lstrip("_"), []).append(st)
+
+            def stmt_of(node):
+                try:
+                    return rd.stmt_of(node)
+                except Exception:
+                    return None
+
+            for A in refreshes:
+                stale = []
+                seen = set()
+                work = [(A.value, A)]
+                while work:
+                    e, at = work.pop()
+                    for x in ast.walk(e):
+                        if isinstance(x, ast.Attribute) and isinstance(x.value, ast.Name) and x.value.id == me and x.attr in dep_names and isinstance(x.ctx, ast.Load):
+                            for W in writes.get(x.attr.lstrip("_"), []):
+                                if order.get(id(at), -1) < order[id(W)] < order[id(A)]:
+                                    stale.append((x, at, W))
+                        elif isinstance(x, ast.Name) and isinstance(x.ctx, ast.Load) and x.id != me:
+                            for d in rd.defs(x.id, at):
+                                if d.node is not None and d.stmt is not None and id(d.stmt) not in seen and id(d.stmt) in order:
+                                    seen.add(id(d.stmt))
+                                    work.append((d.node, d.stmt))
+                inst = "%s: %s assigned from current data" % (fk.name, cache.name)
+                if stale:
+                    x, at, W = stale[0]
+                    res.bad("CACHE-CURRENT", inst, Finding("CACHE-CURRENT", fk.mod, A, "%s rebuilds %s from %s as read before `%s`" % (fk.name, cache.name, norm(x), norm(W)[:60]), "the refreshed %s is computed from the value the dependency had before this mutator changed it: queries answer from the old data" % cache.name, qualname=fk.name))
+                else:
+                    res.ok("CACHE-CURRENT", inst)
 
 
 def _history(repo, res):
